@@ -300,17 +300,17 @@ def calls_on_field(F, pats, field, argi=0, bodies=None):
 
 _glive_cache = {}
 
-def _glive(body):
-    k = (id(body.facts), body.path)
+def _glive(body, removed_edges=frozenset()):
+    k = (id(body.facts), body.path, frozenset(removed_edges))
     if k not in _glive_cache:
-        _glive_cache[k] = core.guard_liveness(body, extra_guard_types=('log::LogReader<',))
+        _glive_cache[k] = core.guard_liveness(body, extra_guard_types=('log::LogReader<',), removed_edges=frozenset(removed_edges))
     return _glive_cache[k]
 
 
-def guards_live_at(body, site):
+def guards_live_at(body, site, removed_edges=frozenset()):
     """list of (local, type, class-fields) of guard holders definitely live just before the
     terminator of block `site`."""
-    IN, PRE, acq = _glive(body)
+    IN, PRE, acq = _glive(body, removed_edges)
     st = set(PRE.get(site, ()))
     # parameters that own a guard are live from entry until moved/dropped: approximated by
     # liveness seeded in IN[0]; handled by caller via param_guards()
@@ -324,10 +324,10 @@ def guards_live_at(body, site):
     return res
 
 
-def held_at(ctx, key, body, site, lock_field, desc, mode=None, rule='K5-held-at'):
+def held_at(ctx, key, body, site, lock_field, desc, mode=None, rule='K5-held-at', removed_edges=frozenset()):
     """a guard acquired from `lock_field` (e.g. '.DbInner.commit_overlay') is live at `site` on all paths.
     mode: None | 'write' (guard type must be a write/mutex guard)"""
-    live = guards_live_at(body, site)
+    live = guards_live_at(body, site, removed_edges)
     ok = False
     for (l, ty, cls) in live:
         if lock_field in cls:
@@ -805,6 +805,27 @@ def panic_site_autodischarge(body, site):
 _NEG = {'Gt': 'Le', 'Ge': 'Lt', 'Lt': 'Ge', 'Le': 'Gt', 'Eq': 'Ne', 'Ne': 'Eq'}
 _FLIP = {'Gt': 'Lt', 'Ge': 'Le', 'Lt': 'Gt', 'Le': 'Ge', 'Eq': 'Eq', 'Ne': 'Ne'}
 
+def const_of(body, o):
+    """integer value of an operand that is a constant, or a local defined once as (a cast of) a constant"""
+    if 'i' in o:
+        return o['i']
+    l = op_local(o)
+    if l is None or len(op_place(o)) != 1:
+        return None
+    for _ in range(3):
+        ds = body.defs().get(l, [])
+        if len(ds) != 1 or ds[0][2] != 'assign':
+            return None
+        r = ds[0][3]['r']
+        if r['k'] in ('use', 'cast') and 'i' in r['a'][0]:
+            return r['a'][0]['i']
+        if r['k'] in ('use', 'cast') and op_local(r['a'][0]) is not None and len(op_place(r['a'][0])) == 1:
+            l = op_local(r['a'][0])
+            continue
+        return None
+    return None
+
+
 def guard_predicates(body, site):
     """comparisons `x REL const` that must hold for `site` to be reached (from the switches the site
     is control dependent on). Returns list of dicts {rel, const, fields, calls, block}."""
@@ -832,10 +853,11 @@ def guard_predicates(body, site):
             if r['k'] == 'bin' and r['op'] in _NEG:
                 a, b2 = r['a']
                 op = r['op']
-                if 'i' in b2 and op_place(a) is not None:
-                    x, c = a, b2['i']
-                elif 'i' in a and op_place(b2) is not None:
-                    x, c = b2, a['i']
+                ca, cb = const_of(body, a), const_of(body, b2)
+                if cb is not None and op_place(a) is not None and ca is None:
+                    x, c = a, cb
+                elif ca is not None and op_place(b2) is not None and cb is None:
+                    x, c = b2, ca
                     op = _FLIP[op]
                 else:
                     break
@@ -980,3 +1002,62 @@ def str_consts(body):
                 if a.get('ty') in ('&str', '&&str') and 's' in a:
                     out.append((bi, a['s']))
     return out
+
+
+def loop_arm_must_call(body, loop, adt_suffix, variant_discr, call_blocks):
+    """inside `loop`, on the arm where the element's enum discriminant (of a type ending with
+    adt_suffix) equals variant_discr, every path back to the loop head passes one of call_blocks.
+    returns (arm_found, witness_path_or_None)"""
+    region = body.reachable_from([loop['some']], removed={loop['head']})
+    arm = None
+    for bi in sorted(region):
+        t = body.term(bi)
+        if t['k'] != 'switch':
+            continue
+        d = switch_def(body, bi)
+        if not d or d[2] != 'assign' or d[3]['r']['k'] != 'discr':
+            continue
+        pl = d[3]['r']['p']
+        ty = body.locals[pl[0]]
+        if not (adt_suffix in ty):
+            continue
+        for v, tg in zip(t['vals'], t['ts']):
+            if v == variant_discr:
+                arm = tg
+        if arm is None and len(t['vals']) == 1 and t['vals'][0] != variant_discr:
+            arm = t['ts'][-1]
+        if arm is not None:
+            break
+    if arm is None:
+        return False, None
+    w = body.find_path([arm], {loop['head']}, removed=set(call_blocks) | core.error_exit_blocks(body))
+    return True, w
+
+
+def guard_influences(body, site, depth=3, _seen=None):
+    """callee names and fields that influence whether `site` is reached: the backward slices of the
+    discriminants of the branches `site` is control dependent on; a branch on a boolean flag local
+    (assigned only constants) is followed to the guards of the blocks that set it."""
+    calls, fields, binops = set(), set(), set()
+    _seen = _seen if _seen is not None else set()
+    if site in _seen or depth < 0:
+        return calls, fields, binops
+    _seen.add(site)
+    for (s, yes, no) in body.control_deps(site):
+        t = body.term(s)
+        if t['k'] != 'switch' or op_place(t['a']) is None:
+            continue
+        sl = backward_slice(body, [op_place(t['a'])])
+        calls |= sl.calls
+        fields |= sl.fields
+        binops |= sl.binops
+        # flag indirection
+        for l in sl.locals:
+            if l < len(body.locals) and body.locals[l] == 'bool':
+                ds = body.defs().get(l, [])
+                if ds and all(d[2] == 'assign' and d[3]['r']['k'] == 'use' and 'i' in d[3]['r']['a'][0] for d in ds):
+                    for d in ds:
+                        if d[3]['r']['a'][0]['i'] != 0:
+                            c2, f2, b2 = guard_influences(body, d[0], depth - 1, _seen)
+                            calls |= c2; fields |= f2; binops |= b2
+    return calls, fields, binops
